@@ -111,6 +111,16 @@ static Case cases[] = {
          if (!(ss == "{\"a\":1}") || !q2.IsString() || q2.IsUndefined()) { printf("expected {\"a\":1} and a string, got %.*s / %d\n", (int)ss.Length(), ss.First(), (int)q2.IsString()); return 1; }
          return 0;
      }},
+    {"json_int64_min_keeps_its_kind", [] {
+         Value<char> v = JSON::Parse("[-9223372036854775808,-9223372036854775807,-9223372036854775809]");
+         const Value<char> *a = v.GetValue(0), *b = v.GetValue(1), *c = v.GetValue(2);
+         if (a == nullptr || b == nullptr || c == nullptr) return printf("not parsed\n"), 1;
+         if (!a->IsInt64() || !b->IsInt64() || !c->IsDouble() || (a->GetInt64() != (-9223372036854775807LL - 1LL))) {
+             printf("expected INT64_MIN as an integer: int=%d int=%d double=%d\n", (int)a->IsInt64(), (int)b->IsInt64(), (int)c->IsDouble());
+             return 1;
+         }
+         return 0;
+     }},
     {"json_unterminated_top_level_string", [] {
          // UnEscape returns the whole length when the text ends inside the string; "abc\" ends in an ESCAPED quote
          int bad = 0;
